@@ -6,6 +6,8 @@
 //!           `sync` = `Box<dyn Write + Send + Sync>`, `ref` = `&mut dyn Write`,
 //!           `fn`   = `ansi::write_colored` called directly on the scripted writer,
 //!           `vec`  = `Vec<u8>`, `file` = `std::fs::File`   (accept-all scripts only)
+//!           `out` / `err` = the real `std::io::Stdout` / `Stderr` of a child process (pipes)
+//!           `full` = `File` on /dev/full, `ro` = `File` opened read-only (every write fails)
 //!   script  comma-separated: `a<n>` accept n bytes, `eI|eW|eO|eZ` fail with
 //!           Interrupted / WouldBlock / Other / WriteZero, `all` (last) or an exhausted
 //!           script = accept everything
@@ -180,6 +182,37 @@ fn wc(f: &[&str]) -> String {
             let _ = std::fs::remove_file(&path);
             format!("{} {}", show_res(&r), show_buf(&got))
         }
+        "out" | "err" => {
+            // the impls for std::io::Stdout / Stderr: a child process with both streams on pipes
+            assert!(script.is_empty() && pre.is_empty(), "std streams: accept-all, nothing before");
+            let exe = std::env::current_exe().expect("current_exe");
+            let out = std::process::Command::new(exe)
+                .args(["--wc-child", sink, f[1], f[2], f[4]])
+                .stdin(std::process::Stdio::null())
+                .output()
+                .expect("spawn child");
+            if !out.status.success() {
+                return format!("CHILD-FAILED {:?}", out.status.code());
+            }
+            let (got, answer) = if sink == "out" { (out.stdout, out.stderr) } else { (out.stderr, out.stdout) };
+            format!("{} {}", String::from_utf8_lossy(&answer), show_buf(&got))
+        }
+        "full" | "ro" => {
+            // a `File` whose every write fails: /dev/full (ENOSPC), or a file opened read-only (EBADF)
+            assert!(pre.is_empty(), "failing files start empty");
+            let mut file = if sink == "full" {
+                std::fs::OpenOptions::new().write(true).open("/dev/full").expect("open /dev/full")
+            } else {
+                std::fs::File::open("/dev/null").expect("open /dev/null read-only")
+            };
+            let r = file.write_colored(fg, bg, &data);
+            // the error kind the OS reports is not the model's business: any failure counts as `O`
+            let shown = match &r {
+                Ok(k) => format!("ok:{k}"),
+                Err(_) => "err:O".to_owned(),
+            };
+            format!("{} -", shown)
+        }
         _ => {
             let st = Arc::new(Mutex::new(State {
                 script,
@@ -214,6 +247,22 @@ fn wc(f: &[&str]) -> String {
             format!("{} {} {}", show_res(&r), show_buf(&st.received), calls)
         }
     }
+}
+
+/// child mode `hcore --wc-child <out|err> <fg> <bg> <data hex>`: one coloured write on the real stream,
+/// unlocked (`out`, `err`) -- the answer goes to the other stream
+pub fn wc_child(args: &[String]) -> i32 {
+    let (fg, bg, data) = (colour(&args[1]), colour(&args[2]), unhex(&args[3]));
+    if args[0] == "out" {
+        let r = std::io::stdout().write_colored(fg, bg, &data);
+        let _ = std::io::stdout().flush();
+        eprint!("{}", show_res(&r));
+    } else {
+        let r = std::io::stderr().write_colored(fg, bg, &data);
+        print!("{}", show_res(&r));
+        let _ = std::io::stdout().flush();
+    }
+    0
 }
 
 pub fn dispatch(kind: &str, f: &[&str]) -> Option<String> {
